@@ -22,6 +22,9 @@ var (
 	leavesTiny = []string{"-a", "-ab", "X", "--"}
 	leavesNest = []string{"X", "--", "-a"} // deep nesting of repetitions / optional groups
 	leavesOpts = []string{"-a", "-b", "X"} // two options consumable at several points of one run (backtracking completeness)
+	// the alternative declarations (ref.Alt): long name first, two short names, three names
+	leavesAlt = []string{"-a", "--aa", "-m", "-nm", "-an", "-o", "--output", "OPTIONS", "X"}
+	tokAlt    = []string{"x", "--", "-a", "--aa", "-n", "-m", "-mn", "-na", "-ov", "--output=v", "--out", "-amo"}
 
 	tokFull = []string{"x", "v", "-", "--", "-a", "--aa", "-a=true", "-b", "-ab", "-ba", "-o", "-ov", "-o=v", "--out", "--out=v",
 		"-aov", "-ao", "-z", "--zz", "-az", "-o=", "--out=", "-z=v"}
@@ -36,6 +39,7 @@ func init() {
 }
 
 type langTier struct {
+	decl    string // "" = the standard declarations, "alt" = ref.Alt()
 	name    string
 	leaves  []string
 	maxSize int
@@ -47,22 +51,26 @@ type langTier struct {
 func langTiers(c *Ctx) []langTier {
 	if c.Thorough() {
 		return []langTier{
-			{"full-s4-l3", leavesFull, 4, tokMid, 3, false},
-			{"full-s3-l3-alltokens", leavesFull, 3, tokFull, 3, false},
-			{"full-s3-l4", leavesFull, 3, tokMid, 4, false},
-			{"tiny-s5-l3", leavesTiny, 5, tokTiny, 3, false},
-			{"opts-s5-l4", leavesOpts, 5, []string{"x", "-a", "-b", "-ab"}, 4, false},
-			{"nest-s6-l3", leavesNest, 6, []string{"x", "-a", "--"}, 3, false},
-			{"builtin-s3-l3", leavesFull, 3, tokBuiltin, 3, true},
+			{name: "full-s4-l3", leaves: leavesFull, maxSize: 4, toks: tokMid, maxLen: 3, builtin: false},
+			{name: "full-s3-l3-alltokens", leaves: leavesFull, maxSize: 3, toks: tokFull, maxLen: 3, builtin: false},
+			{name: "full-s3-l4", leaves: leavesFull, maxSize: 3, toks: tokMid, maxLen: 4, builtin: false},
+			{name: "tiny-s5-l3", leaves: leavesTiny, maxSize: 5, toks: tokTiny, maxLen: 3, builtin: false},
+			{name: "opts-s5-l4", leaves: leavesOpts, maxSize: 5, toks: []string{"x", "-a", "-b", "-ab"}, maxLen: 4, builtin: false},
+			{name: "nest-s6-l3", leaves: leavesNest, maxSize: 6, toks: []string{"x", "-a", "--"}, maxLen: 3, builtin: false},
+			{name: "builtin-s3-l3", leaves: leavesFull, maxSize: 3, toks: tokBuiltin, maxLen: 3, builtin: true},
+			{decl: "alt", name: "alt-s3-l3", leaves: leavesAlt, maxSize: 3, toks: tokAlt, maxLen: 3},
+			{decl: "alt", name: "alt-s4-l2", leaves: leavesAlt, maxSize: 4, toks: tokAlt, maxLen: 2},
 		}
 	}
 	return []langTier{
-		{"full-s3-l3", leavesFull, 3, tokMid, 3, false},
-		{"full-s2-l3-alltokens", leavesFull, 2, tokFull, 3, false},
-		{"mid-s4-l2", leavesMid, 4, tokMid, 2, false},
-		{"nest-s5-l3", leavesNest, 5, []string{"x", "-a", "--"}, 3, false},
-		{"opts-s5-l3", leavesOpts, 5, []string{"x", "-a", "-b"}, 3, false},
-		{"builtin-s2-l3", leavesFull, 2, tokBuiltin, 3, true},
+		{name: "full-s3-l3", leaves: leavesFull, maxSize: 3, toks: tokMid, maxLen: 3, builtin: false},
+		{name: "full-s2-l3-alltokens", leaves: leavesFull, maxSize: 2, toks: tokFull, maxLen: 3, builtin: false},
+		{name: "mid-s4-l2", leaves: leavesMid, maxSize: 4, toks: tokMid, maxLen: 2, builtin: false},
+		{name: "nest-s5-l3", leaves: leavesNest, maxSize: 5, toks: []string{"x", "-a", "--"}, maxLen: 3, builtin: false},
+		{name: "opts-s5-l3", leaves: leavesOpts, maxSize: 5, toks: []string{"x", "-a", "-b"}, maxLen: 3, builtin: false},
+		{name: "builtin-s2-l3", leaves: leavesFull, maxSize: 2, toks: tokBuiltin, maxLen: 3, builtin: true},
+		{decl: "alt", name: "alt-s2-l3", leaves: leavesAlt, maxSize: 2, toks: tokAlt, maxLen: 3},
+		{decl: "alt", name: "alt-s3-l2", leaves: leavesAlt, maxSize: 3, toks: tokAlt, maxLen: 2},
 	}
 }
 
@@ -76,7 +84,12 @@ func runLangCheck(c *Ctx) {
 		rerunPhase(c, d, &idx)
 	}
 	tiers := langTiers(c)
+	std := d
 	for ti, t := range tiers {
+		d := std
+		if t.decl != "" {
+			d = ref.DeclByName(t.decl)
+		}
 		g := ref.NewSpecGen(t.leaves)
 		argvs := ref.Argvs(t.toks, t.maxLen)
 		nspecs := 0
@@ -96,7 +109,7 @@ func runLangCheck(c *Ctx) {
 				}
 				c.Count("specs", 1)
 				// tiers overlap: a pair already explored by an earlier tier is skipped, so that pairs stay distinct
-				cov := newCoverage(tiers[:ti], spec, n, t.builtin)
+				cov := newCoverageDecl(tiers[:ti], spec, n, t.builtin, t.decl)
 				for _, argv := range argvs {
 					c.Beat()
 					if cov.covers(argv) {
@@ -153,9 +166,12 @@ func specAlphabet(n *ref.Node, d *ref.Decl) []string {
 			add("x")
 		case ref.NOpt:
 			o := d.Opts[n.Idx]
-			if o.Flag {
+			switch {
+			case o.Flag:
 				add(o.Names[0])
-			} else {
+			case strings.HasPrefix(o.Names[0], "--"):
+				add(o.Names[0] + "=v")
+			default:
 				add(o.Names[0] + "v")
 			}
 		case ref.NGroup:
@@ -253,8 +269,15 @@ func rerunPhase(c *Ctx, d *ref.Decl, idx *int) {
 	}
 }
 
+func declName(d *ref.Decl) string {
+	if len(d.Args) == 1 {
+		return "alt"
+	}
+	return "std"
+}
+
 func replayLang(c *Ctx, cs Case) {
-	d := ref.Std()
+	d := ref.DeclByName(cStr(cs, "decl"))
 	spec := cStr(cs, "spec")
 	node, err := ref.ParseSpec(d, spec)
 	if err != nil {
@@ -306,11 +329,14 @@ func judgeLang(c *Ctx, d *ref.Decl, spec string, node *ref.Node, argv []string, 
 		c.Count("nontrivial", 1)
 	}
 	mkCase := func() Case {
-		return Case{"spec": spec, "argv": argv, "argv_hex": hxs(argv), "builtin": builtin, "decl": "std", "go_test": langGoTest(spec, argv)}
+		return Case{"spec": spec, "argv": argv, "argv_hex": hxs(argv), "builtin": builtin, "decl": declName(d), "go_test": langGoTest(spec, argv)}
 	}
 	key := fmt.Sprintf("spec=%q argv=%q", spec, argv)
 	if builtin {
 		key += " builtin-types"
+	}
+	if declName(d) == "alt" {
+		key += " declarations: --aa/-a flag, -n/-m flag, --out/-o/--output valued, X"
 	}
 	if len(obs.Exits) > 0 || (obs.Panic != "") || obs.ActionRuns > 1 {
 		// with a well-formed spec under ContinueOnError, Run never exits, never panics, runs the Action at most once
@@ -519,10 +545,14 @@ func specLeaves(spec string) []string {
 }
 
 func newCoverage(earlier []langTier, spec string, size int, builtin bool) *tierCoverage {
+	return newCoverageDecl(earlier, spec, size, builtin, "")
+}
+
+func newCoverageDecl(earlier []langTier, spec string, size int, builtin bool, decl string) *tierCoverage {
 	cov := &tierCoverage{}
 	leaves := specLeaves(spec)
 	for _, e := range earlier {
-		if e.builtin != builtin || size > e.maxSize {
+		if e.builtin != builtin || size > e.maxSize || e.decl != decl {
 			continue
 		}
 		ls := map[string]bool{}
